@@ -96,3 +96,17 @@ typedef Tm2<TdB::value_type, int> Tm2Kq;
 typedef Tm2<TdC::value_type, TdA::value_type> Tm2Kr;
 typedef Tm2<TdB::name_type, TdA::name_type> Tm2Kn;
 typedef Tm2<TdA::name_type, TdB::name_type> Tm2Km;
+
+// Conditional expressions that differ only in their third operand, next to one whose condition names another type.
+struct CondA { int x; };
+struct CondB { int x; };
+template<int N> struct CondArr { int v[N]; };
+typedef CondArr<(sizeof(CondB) > 8 ? 1 : 2)> CondC;
+typedef CondArr<(sizeof(CondA) > 8 ? 1 : 2)> CondD;
+typedef CondArr<(sizeof(CondA) > 8 ? 1 : 3)> CondE;
+__begin_publish
+void cond_f3(int a = sizeof(CondB) > 8 ? 16 : 8);
+void cond_f1(int a = sizeof(CondA) > 8 ? 16 : 8);
+void cond_f2(int a = sizeof(CondA) > 8 ? 16 : 4);
+CondC *cond_c(CondD *d, CondE *e);
+__end_publish
